@@ -51,7 +51,7 @@ int vnadata_set_fz0(vnadata_t *vdp, int findex, int port, double complex z0)
 	return -1;
     }
     ports = MAX(vdp->vd_rows, vdp->vd_columns);
-    if (port < 0 || port > ports) {
+    if (port < 0 || port >= ports) {
 	_vnadata_error(vdip, VNAERR_USAGE,
 		"vnadata_set_fz0: invalid port index: %d", port);
 	return -1;
